@@ -146,6 +146,11 @@ func (p *FSM) Open(_ <-chan struct{}) (uint64, error) {
 	var dbdir string
 	if rp.IsNewRun(p.fs, p.dirname) {
 		dbdir = filepath.Join(p.dirname, randomDir)
+		// Create the DB directory before the current file pointing to it is published (and the parent directory synced),
+		// a crash must never leave the current file naming a directory which does not exist.
+		if err := p.fs.MkdirAll(dbdir, 0o755); err != nil {
+			return 0, err
+		}
 		if err := rp.SaveCurrentDBDirName(p.fs, p.dirname, randomDir); err != nil {
 			return 0, err
 		}
